@@ -43,4 +43,13 @@ end
 theorem V3.ext' {a b : V3 ℝ} (hx : a.x = b.x) (hy : a.y = b.y) (hz : a.z = b.z) : a = b := by
   cases a; cases b; simp_all
 
+theorem norm_sq (x : V3 ℝ) : Kern.norm x * Kern.norm x = x.x * x.x + x.y * x.y + x.z * x.z := by
+  simp only [Kern.norm, sqrt_real]
+  exact Real.mul_self_sqrt (by nlinarith [mul_self_nonneg x.x, mul_self_nonneg x.y, mul_self_nonneg x.z])
+
+/-- the outside formula of `BHJM_magnet_sphere` -/
+noncomputable def sphereOutB (R : ℝ) (pol x : V3 ℝ) : V3 ℝ :=
+  let r := Kern.norm x
+  vs (R * R * R / 3) (vd (vs (3 * V3.dot pol x) x - vs (r * r) pol) (r * r * r * r * r))
+
 end MagpyVerif.Kern
